@@ -35,8 +35,8 @@ CHECKS.update({
 
 CHECKS.update({
     "C09": dict(cat="proof", technique="abstract interpretation over Cython's typed tree: linear-template loop invariants (Houdini) with Fourier-Motzkin entailment; bounded exact-path counterexamples",
-                text="For every typed-memoryview index in a kernel compiled with boundscheck=False (35 sites, 70+ obligations in the three binary kernels) the bounds 0 <= index <= len-1 are proved from loop invariants inferred over the C int locals and symbolic buffer lengths. An obligation that cannot be discharged is reported as a violation only with a concrete integer counterexample (lengths, counters, branch trace) from an exact walk of at most two loop iterations; otherwise undecided.",
-                note="Trusted: Cython 3.3.0 front-end (parser + type analysis, the same that compiles the module), own FM entailment, numpy.empty(n) has length n. Assumes lengths < 2^30 (no C int overflow) and that the .so is built from the analysed .pyx. set_union_merge_many has content-dependent indices and is listed as not analysed.", ref="4 C09"),
+                text="For every typed-memoryview index in a kernel compiled with boundscheck=False (35 sites, 70+ obligations in the three binary kernels) the bounds 0 <= index <= len-1 are proved from loop invariants inferred over the C int locals and symbolic buffer lengths; the multi-way union, whose indices are READ from integer arrays, is analysed content-aware (element facts derived from how its prelude builds the cursor / limit arrays), and its one access that is relational in array contents - the output write - is decided by a ranking-function argument over the k-way decision tables (sa/kway.py: capacity_argument). No raw memory call (memcpy ...) touches a caller-supplied general view. An obligation that cannot be discharged is reported as a violation only with a concrete integer counterexample (lengths, counters, branch trace) from an exact walk of at most two loop iterations; otherwise undecided.",
+                note="Trusted: Cython 3.3.0 front-end (parser + type analysis, the same that compiles the module), own FM entailment, numpy.empty(n) has length n. Assumes lengths < 2^30 (no C int overflow) and that the .so is built from the analysed .pyx. NumPy facts used by the prelude algebra (prefix sums of non-negative lengths, concatenate) are listed as assumptions in the evidence; the induction from the per-round facts of the k-way tables to `count + Phi <= len(values)` is the trusted textbook step.", ref="4 C09"),
 })
 
 CHECKS.update({
@@ -50,7 +50,7 @@ CHECKS.update({
                 text="Decides the structural clauses: != is defined as the negation of == (a dict subclass otherwise inherits dict.__ne__, which raises on arrays); append and filtered end with an argument-less shift_common() after their last store, collapsed delegates to from_array without a common; the three selection sites are arg-max idioms (running maximum / max of (count, value) pairs) over counts that include the common value's own implicit count; __eq__'s result depends on shape, common, entry count and every entry's row ids of both operands, with AttributeError the only exception mapped to False.",
                 note="Declined: that the chosen value's count is maximal for given data, and a == b iff dense contents coincide over histories (values). An unrecognised selection idiom is UNDECIDED.", ref="4 C15"),
     "C06": dict(cat="other", technique="mod/ref frame-condition analysis of all iindex methods and column_stack; fresh-storage check of requested copies under a specialised copy flag; category-vs-extent classification of fit_dtype call sites",
-                text="NARROW CLAIM. Decides only the statement's last sentence and one dtype clause: operands other than the receiver are never written and non-mutating methods do not write the receiver (all 30 methods, callees inlined); copy(), reindexed(copy=True), column_stack(copy=True), set_if(copy=True) store only freshly allocated arrays; collapsed passes a minimum to fit_dtype because its precedence values may be negative; column_stack re-encodes a copy, never its input.",
+                text="NARROW CLAIM: necessary structural conditions, operation by operation - operands other than the receiver are never written and non-mutating methods do not write the receiver (all methods, callees inlined); requested copies store only fresh arrays; no operation returns the receiver or an argument as its result; sliced / slices1d / column_stack / append / reindexed / collapsed / set_if / filtered / get / items(force) match the schema the NumPy operation dictates (which entries are kept, how keys and row ids are renumbered, the shape of the result, which rows the common value of the other operand covers); collapsed is the documented precedence algorithm (region by region); optional category parameters are tested with `is None`; fit_dtype call sites pass the maximum and the minimum of the same values; every operation's result is a well-formed index (C07) of a wide-enough dtype (C19).",
                 note="Declined, loudly: the NumPy-model equivalence of append/update/filtered/sliced/reindexed/collapsed/column_stack over operation histories is a statement about values and histories that no static argument in reach decides; e.g. collapsed() returning a value absent from the row when the precedence omits a present value is NOT detectable here.", ref="4 C06"),
 })
 
@@ -96,6 +96,23 @@ CHECKS.update({
 NA_REASON = "check not built yet (build in progress; see DESIGN.md section 8)"
 
 
+def rules_of(pid):
+    """The RULES table of checks/<pid>.py, read from its source (no import: the check modules pull in the analysis engines)."""
+    import ast
+    path = os.path.join(VERIF, "checks", pid.lower() + ".py")
+    try:
+        tree = ast.parse(open(path).read())
+    except Exception:
+        return {}
+    for node in tree.body:
+        if isinstance(node, ast.Assign) and any(isinstance(t, ast.Name) and t.id == "RULES" for t in node.targets):
+            try:
+                return ast.literal_eval(node.value)
+            except Exception:
+                return {}
+    return {}
+
+
 def main():
     checks = []
     for pid in ALL:
@@ -103,6 +120,10 @@ def main():
         if not c:
             continue
         low = pid.lower()
+        rules = rules_of(pid)
+        if rules:
+            c = dict(c)
+            c["note"] = c["note"] + " | Rules decided on every run (ids as in the evidence file; the claim above is the summary, this list is complete): " + "; ".join("%s: %s" % (k, v) for k, v in sorted(rules.items()))
         checks.append({
             "property_id": pid,
             "quick_cmd": "/venv/bin/python checks/%s.py --tier quick" % low,
